@@ -34,6 +34,9 @@ func FuncText(f *u.Func) string {
 			for _, q := range p.Fields {
 				fs = append(fs, pp(q))
 			}
+			if p.Embed != 0 {
+				return fmt.Sprintf("{^%d ", p.Embed) + strings.Join(fs, ";") + "}"
+			}
 			return "{" + strings.Join(fs, ";") + "}"
 		}
 	}
@@ -55,6 +58,9 @@ func FuncText(f *u.Func) string {
 			var fs []string
 			for _, q := range r.Fields {
 				fs = append(fs, rr(q))
+			}
+			if r.Embed != 0 {
+				return fmt.Sprintf("{^%d ", r.Embed) + strings.Join(fs, ";") + "}"
 			}
 			return "{" + strings.Join(fs, ";") + "}"
 		}
